@@ -4,7 +4,7 @@ set -u
 name=$1; prop=$2; tier=${3:-quick}
 cd "$(dirname "$0")/.." || exit 2
 [ -z "$(git -C /repo status --porcelain --untracked-files=no)" ] || { echo "/repo has uncommitted changes"; exit 2; }
-git -C /repo apply seeded/$name/patch.diff || { echo "patch does not apply"; exit 2; }
+git -C /repo apply "$PWD/seeded/$name/patch.diff" || { echo "patch does not apply"; exit 2; }
 ./check $prop --tier $tier > /tmp/seed_$name_$prop.log 2>&1
 rc=$?
 git -C /repo checkout -- .
